@@ -59,8 +59,16 @@ def strategy():
                      [['study', '', 'k', 'v']] +
                      [[t, '', 'k%d' % i, 'v'] for i in range(45)
                       for t in (1, 2, 3)]])
+  # completions that carry several pieces at once (infeasible AND a final
+  # measurement, measurement-less auto completion after a reported one)
+  rich_complete = st.tuples(
+      st.just('complete'), st.just('o0'), st.just('s0'),
+      st.sampled_from([1, 2]), st.sampled_from([
+          {'final': 2.5, 'infeasible': True, 'reason': 'bad'},
+          {'final': 2.5, 'infeasible': True, 'reason': ''},
+          {'final': None, 'infeasible': False, 'reason': ''}])).map(list)
   victim = st.one_of(general, general, general, general, general, multi_md,
-                     wide_md,
+                     wide_md, rich_complete,
                      st.tuples(st.just('create_study'), st.just('o0'),
                                st.sampled_from(['s0', 's1'])).map(list),
                      st.just(['delete_study', 'o0', 's0']),
